@@ -18,6 +18,7 @@ import os
 import re
 import struct
 import subprocess
+import zlib
 
 import vlib
 
@@ -339,11 +340,23 @@ def gen_msg(r, idx, subset=None):
 
 # ------------------------------------------------------------------ the property, evaluated on the implementation's output
 
+def body_len_of(bhex):
+    """length of a body as the harness prints it: hex, '-' (empty) or '#<len>.<crc32>' (op M: body built inside the harness)"""
+    if bhex == "-":
+        return 0
+    if bhex.startswith("#"):
+        return int(bhex[1:].split(".")[0])
+    return len(bhex) // 2
+
+
+MAX_MESSAGE = 1 << 27           # "The maximum length of a message, including header, header alignment padding, and body is 2^27"
+
+
 def expected_decoded(m, body_hex, sig_hex, nfds):
     """what the decode-back must show for message m (fields as the harness prints them)"""
     return {"be": "1" if m.bo == "B" else "0", "t": str(m.typ), "f": str(m.flags), "ser": str(m.serial),
             "dser": str(m.serial),
-            "bl": str(0 if body_hex == "-" else len(body_hex) // 2),
+            "bl": str(body_len_of(body_hex)),
             "rs": "-" if m.rs is None else str(m.rs),
             "i": ohx(m.iface), "d": ohx(m.dest), "sn": ohx(m.sender), "m": ohx(m.member), "p": ohx(m.path), "e": ohx(m.err),
             "g": "-" if body_hex == "-" else ("e" if sig_hex == "-" else sig_hex),
@@ -360,11 +373,13 @@ def judge_marshal(m, impl, model):
     viol, corr = [], []
     bhex, shex_, nf = impl["B"].split(":")
     nf = int(nf)
-    body_len = 0 if bhex == "-" else len(bhex) // 2
+    body_len = body_len_of(bhex)
     sig_ok = model.get("sigok")          # filled by the caller from the model's verdict on the signature (C07-proved validator)
     names_ok = m.names_valid()
     live = int(impl.get("L", nf))
-    should_accept = (m.typ != 0 and names_ok and (body_len == 0 or sig_ok) and m.required_present() and live == nf)
+    # the specification's header is always there (also when the model refuses): header + padding + body within 128 MiB
+    fits = len(model["S"]) // 2 + body_len <= MAX_MESSAGE
+    should_accept = (m.typ != 0 and names_ok and (body_len == 0 or sig_ok) and m.required_present() and live == nf and fits)
     H = impl["H"]
     if H == "err":
         if should_accept and model["H"] != "err":
@@ -380,11 +395,10 @@ def judge_marshal(m, impl, model):
             viol.append("a message that lacks a header field its type requires was marshalled")
         if body_len and sig_ok is False:
             viol.append("a message with an invalid body signature was marshalled")
+        if not fits:
+            viol.append("a message longer than 128 MiB (header, padding and body) was marshalled")
         hb = bytes.fromhex(H)
         be = m.bo == "B"
-        # the specification's header, computed by the extracted spec_enc
-        if model["S"] != H:
-            viol.append("header bytes differ from the specification's encoding of the a(yv) header value")
         if len(hb) % 8 != 0 or len(hb) < 16:
             viol.append("header is not padded to an 8-byte boundary")
         else:
@@ -397,6 +411,9 @@ def judge_marshal(m, impl, model):
             hfl = u32_at(hb, 12, be)
             if not (16 + hfl <= len(hb) < 16 + hfl + 8) or any(hb[16 + hfl:]):
                 viol.append("header field array length / zero padding wrong")
+        # the specification's header, computed by the extracted spec_enc
+        if model["S"] != H:
+            viol.append("header bytes differ from the specification's encoding of the a(yv) header value")
         # decode-back
         d = parse_decoded(impl["D"])           # demanded for EVERY message that marshals
         if not d["ok"]:
@@ -409,7 +426,7 @@ def judge_marshal(m, impl, model):
                     break
     if impl["H"] != model["H"]:
         corr.append("header bytes / verdict: impl %s model %s" % (impl["H"][:80], model["H"][:80]))
-    elif impl["H"] != "err" and impl["D"] != model["D"]:
+    elif impl["H"] != "err" and model.get("D") is not None and impl["D"] != model["D"]:
         corr.append("decode-back: impl %s model %s" % (impl["D"][:200], model["D"][:200]))
     return viol, corr
 
@@ -503,6 +520,187 @@ def msg_from_M(mtxt, serial):
     m.iface, m.dest, m.sender, m.member, m.path, m.err = [dec(x) for x in p[4:10]]
     m.body = None
     return m
+
+
+def ww_expected(fs):
+    """the `ww` result the property demands for messages whose `m` results (fields_of) are fs"""
+    sent = "".join("e" if f["H"] == "err" else "o" for f in fs)
+    stream = "".join(f["H"] + ("" if f["B"].split(":")[0] == "-" else f["B"].split(":")[0]) for f in fs if f["H"] != "err")
+    return "S:%s W:%s" % (sent, stream or "-")
+
+
+def ww_first_difference(fs, got):
+    want = ww_expected(fs)
+    if not got.startswith("S:") or " W:" not in got:
+        return "harness says: " + got[:80]
+    if got.split(" ")[0] != want.split(" ")[0]:
+        return "accepted/refused per message: %s, expected %s" % (got.split(" ")[0][2:], want.split(" ")[0][2:])
+    gw, ww = got.split(" W:")[1], want.split(" W:")[1]
+    k = next((j for j in range(min(len(gw), len(ww))) if gw[j] != ww[j]), min(len(gw), len(ww))) // 2
+    pos, n = 0, 0
+    for n, f in enumerate(fs):
+        if f["H"] == "err":
+            continue
+        size = len(f["H"]) // 2 + body_len_of(f["B"].split(":")[0])
+        if k < pos + size:
+            return "%d bytes read, %d expected; first difference at byte %d = byte %d of message %d of %d" % (
+                len(gw) // 2 if gw != "-" else 0, len(ww) // 2 if ww != "-" else 0, k, k - pos, n + 1, len(fs))
+        pos += size
+    return "%d bytes read, %d expected; bytes after the last message" % (len(gw) // 2, len(ww) // 2 if ww != "-" else 0)
+
+
+# ------------------------------------------------------------------ bodies built inside the harness (op M): 16 MiB .. 128 MiB
+
+def big_block(seed):
+    """the 251 bytes harness/src/bin/c05.rs big_body repeats: high bytes of the LCG x -> x * 1103515245 + 12345 mod 2^32"""
+    x, out = seed, bytearray()
+    for _ in range(251):
+        x = (x * 1103515245 + 12345) & 0xFFFFFFFF
+        out.append((x >> 16) & 0xFF)
+    return bytes(out)
+
+
+def big_body_bytes(nbytes, seed, be):
+    """the body `big:<nbytes>:<seed>:..` stands for: an `ay` of nbytes - 4 elements"""
+    if nbytes < 4:
+        return bytes(nbytes)
+    n = nbytes - 4
+    return struct.pack(">I" if be else "<I", n) + (big_block(seed) * (n // 251 + 1))[:n]
+
+
+def big_token(nbytes, seed, be):
+    return "#%d.%08x" % (nbytes, zlib.crc32(big_body_bytes(nbytes, seed, be)) & 0xFFFFFFFF)
+
+
+def spec_e_line(m, blen, sig, nfds):
+    """the `e` line of ocaml/c05/driver.ml (extracted SPECIFICATION only: fixed part ++ spec_enc of the a(yv) value) for message m
+    with a body of blen bytes given as a NUMBER: fields in the order of Msg/MsgSpec.v fields_of_msg"""
+    fs = []
+    if m.rs is not None:
+        fs.append("5 v u u %d" % m.rs)
+    for code, v in ((2, m.iface), (6, m.dest), (7, m.sender), (3, m.member)):
+        if v is not None:
+            fs.append("%d v s s %s" % (code, hx(v)))
+    if m.path is not None:
+        fs.append("1 v o o %s" % hx(m.path))
+    if m.err is not None:
+        fs.append("4 v s s %s" % hx(m.err))
+    if blen:
+        fs.append("8 v g g %s" % hx(sig))
+    if nfds:
+        fs.append("9 v u u %d" % nfds)
+    return " ".join(["e", m.bo, str(m.typ), str(m.flags), str(blen), str(m.serial), str(len(fs))] + fs)
+
+
+def patch_blen(hexhdr, blen, be):
+    """a header (hex) with its body length field set to blen"""
+    return hexhdr[:8] + struct.pack(">I" if be else "<I", blen).hex() + hexhdr[16:]
+
+
+def twin_line(m, sig, nfds):
+    """driver `m` line of the same message with an 8-byte body of the same signature and descriptor count"""
+    return "m d %s %d %d %d %s %s %s %s %s %s %s B:%s:%s:%d" % (
+        m.bo, m.typ, m.flags, m.serial, "-" if m.rs is None else m.rs, ohx(m.iface), ohx(m.dest), ohx(m.sender),
+        ohx(m.member), ohx(m.path), ohx(m.err), "00" * 8, hx(sig), nfds)
+
+
+def big_model(m, drv, nbytes, sig, nfds):
+    """(model dict for judge_marshal, problem or None) for message m with a body of nbytes that is NOT given to the extracted
+    code byte by byte: S = the extracted specification's encoding with the body length as a number (op e); H = the model's
+    header for the 8-byte twin with the body length field set (Msg/Header.v marshal_msg reads the body only through
+    `len (m_body m)` and `is_nil (m_body m)`), Err beyond 128 MiB"""
+    be = m.bo == "B"
+    o = run_proc(drv, [twin_line(m, sig, nfds), spec_e_line(m, nbytes, sig, nfds), spec_e_line(m, 8, sig, nfds)])[1]
+    if len(o) != 3 or not o[1].startswith("E:") or not o[2].startswith("E:"):
+        return None, "driver failed: %s" % " | ".join(x[:200] for x in o)
+    tw = fields_of(o[0])
+    pad = lambda e: e + "00" * ((-(len(e) // 2)) % 8)
+    e_big, v_big = o[1].split(" ")[0][2:], o[1].split(" ")[1]
+    e_8 = o[2].split(" ")[0][2:]
+    if "S" not in tw or pad(e_8) != tw["S"]:
+        return None, "the `e` line built here does not give spec_header of the twin: %s vs %s" % (pad(e_8)[:200], tw.get("S", "?")[:200])
+    S = pad(e_big)
+    if tw["H"] == "err":
+        H = "err"
+    elif len(S) // 2 + nbytes > MAX_MESSAGE:
+        H = "err"
+    else:
+        H = patch_blen(tw["H"], nbytes, be)
+    return {"H": H, "S": S, "D": None, "sigok": True, "V": v_big}, None
+
+
+def gen_big_msg(r, idx):
+    """a message every part of which is valid, all four types, any subset of the optional fields"""
+    while True:
+        m = gen_msg(r, idx)
+        if not m.kinds and m.required_present():
+            break
+    m.kinds = ["big"]
+    m.mode = "d"
+    return m
+
+
+def big_line(m, nbytes, seed, sig, nfds):
+    m.body = "big:%d:%d:%s:%d" % (nbytes, seed, hx(sig), nfds)
+    return "M" + m.line()[1:]
+
+
+def run_big(ctx, exe, drv, thorough):
+    """bodies of 16 MiB and more, up to the 128 MiB message limit, in both byte orders"""
+    r = ctx.sub_rng("big")
+    plan = []
+    for k, what in enumerate(["2^24-5", "2^24-4", "2^24-1", "2^24", "2^24+5", "40MB", "2^26+", "limit", "limit+1", "limit-8"] + (
+            ["2^25", "2^24+2^16", "100MB", "limit-1", "limit+8"] if thorough else [])):
+        for bo in (0, 1):
+            m = gen_big_msg(r, 2 * r.randrange(1 << 20) + bo)
+            nfds = r.choice([0, 0, 0, 1, 2])
+            plan.append((what, m, nfds, r.randrange(1, U32)))
+    sig = "ay"
+    cases = []
+    for what, m, nfds, seed in plan:
+        be = m.bo == "B"
+        tw = fields_of(run_proc(drv, [twin_line(m, sig, nfds)])[1][0])
+        if "S" not in tw:
+            ctx.tie_broken("extracted model driver failed on the 8-byte twin of a big message", twin_line(m, sig, nfds)[:300])
+            continue
+        hlen = len(tw["S"]) // 2
+        nbytes = {"2^24-5": (1 << 24) - 5, "2^24-4": (1 << 24) - 4, "2^24-1": (1 << 24) - 1, "2^24": 1 << 24, "2^24+5": (1 << 24) + 5,
+                  "40MB": 40 * 1000 * 1000 + r.randrange(1 << 20), "2^26+": (1 << 26) + r.randrange(1, 1 << 16), "2^25": 1 << 25,
+                  "2^24+2^16": (1 << 24) + (1 << 16), "100MB": 100 * 1000 * 1000 + r.randrange(1 << 20),
+                  "limit": MAX_MESSAGE - hlen, "limit+1": MAX_MESSAGE - hlen + 1, "limit-8": MAX_MESSAGE - hlen - 8,
+                  "limit-1": MAX_MESSAGE - hlen - 1, "limit+8": MAX_MESSAGE - hlen + 8}[what]
+        cases.append((what, m, nfds, seed, nbytes, big_line(m, nbytes, seed, sig, nfds)))
+    # at most four harness processes at a time: each holds a few copies of its body
+    outs = run_sharded(exe, [c[5] for c in cases], "harness", per=max(1, (len(cases) + 3) // 4))
+    for (what, m, nfds, seed, nbytes, l), o in zip(cases, outs):
+        ctx.case(l, nontrivial=True, sample={"line": l[:300], "impl": o[:300]} if what == "2^24+5" and m.bo == "B" else None)
+        ctx.count("kind:big")
+        ctx.count("big:" + what)
+        ctx.count("bo:" + m.bo)
+        if o.startswith(("CRASH", "PANIC")):
+            ctx.disagreements_checked += 1
+            ctx.violation("marshalling or decoding a message with a body of %d bytes panicked / crashed" % nbytes, {"line": l, "impl": o[:400]})
+            continue
+        f = fields_of(o)
+        want_tok = big_token(nbytes, seed, m.bo == "B")
+        if f.get("B") != "%s:%s:%d" % (want_tok, hx(sig), nfds):
+            ctx.tie_broken("harness: the body built from a `big:` descriptor is not the one the check computes", "line: %s\nimpl: %s\nexpected body %s" % (l[:300], o[:300], want_tok))
+            continue
+        mf, problem = big_model(m, drv, nbytes, sig, nfds)
+        if problem:
+            ctx.tie_broken("extracted specification / model failed on a big message", "line: %s\n%s" % (l[:300], problem))
+            continue
+        if mf["V"] != "V:1":
+            ctx.tie_broken("the extracted specification calls the header of a generated big message invalid", "line: %s" % l[:300])
+            continue
+        ctx.count("result:" + ("err" if f["H"] == "err" else "ok"))
+        viol, corr = judge_marshal(m, f, mf)
+        if viol or corr:
+            ctx.disagreements_checked += 1
+        if viol:
+            ctx.violation(viol[0] + " (body of %d bytes)" % nbytes, {"line": l, "impl": o[:2000], "spec": mf["S"], "model": mf["H"], "all": viol})
+        elif corr:
+            ctx.tie_broken("correspondence: " + corr[0], "line: %s\nimpl: %s\nmodel: %s" % (l[:500], o[:1000], mf["H"][:1000]))
 
 
 # ------------------------------------------------------------------ source drift (heuristic; never a verdict by itself)
@@ -619,8 +817,14 @@ def run(ctx):
     ctx.trusted = ["Coq 8.16.1 kernel (coqc), vm_compute for the 3x256 flag sweep, no native_compute",
                    "extraction with ExtrOcamlBasic only, ocamlfind ocamlopt 4.13.1",
                    "ocaml/c05/driver.ml and harness/src/bin/c05.rs (I/O wrappers), the name validators and byte checks in checks/c05.py",
-                   "Wire/SpecEnc.v, Msg/HeaderSpec.v, Msg/MsgSpec.v, Names/Spec.v: my reading of the D-Bus specification"]
-    ctx.assumptions = ["marshal() is called with an empty header buffer (as SendConn::send_message does)",
+                   "Wire/SpecEnc.v, Msg/HeaderSpec.v, Msg/MsgSpec.v, Names/Spec.v: my reading of the D-Bus specification",
+                   "bodies of 16 MiB and more are built inside the harness from a descriptor (length and crc32 reported, recomputed "
+                   "here); the extracted specification gets their length as a number (driver op e, tied to spec_header on an 8-byte "
+                   "twin of the message), the model header is the twin's with the length field set (marshal_msg reads the body only "
+                   "through len and is_nil) - python does that substitution"]
+    ctx.assumptions = ["marshal() is called with an empty header buffer (the model's marshal_header starts from one); that SendConn::"
+                       "send_message hands it one for EVERY message of a connection is observed, not proved: several messages per "
+                       "connection, the whole byte stream read at the peer end",
                        "usize is 64 bit; ByteOrder::NATIVE is little endian on the machine the check runs on",
                        "strings are given as UTF-8 (Rust String); the body bytes/signature/descriptor count are inputs of the header "
                        "model (body marshalling is C01/C02)"]
@@ -861,23 +1065,39 @@ def run(ctx):
             else:
                 ctx.tie_broken("correspondence: re-marshal verdict differs from the model", "line: %s\nimpl: %s\nmodel: %s" % (l[:400], o[:600], mo[:600]))
 
-    # ---------------- bytes captured from the peer end of a real connection (send_message_write_all) = header ++ body
+    # ---------------- bytes captured from the peer end of a real connection: one to four messages go through ONE connection
+    # (send_message_write_all each, in order); everything the peer reads until the connection is closed must be header ++ body
+    # of each message that marshals, in order, and nothing else (a message that does not marshal leaves no byte on the wire
+    # and no trace in the next one's header).
     # (not the messages with hundreds of descriptors: one sendmsg carries at most 253, that limit is C10/C11's subject)
-    widx = r2.sample([i for i, m in enumerate(msgs) if m is not None and lines[i].startswith("m ") and m.body is not None and parsed[i] is not None
-                      and int(parsed[i]["B"].split(":")[2]) <= 200],
-                     1000 if thorough else 200)
-    wl = ["w " + lines[i][2:] for i in widx]
-    wout = run_sharded(exe, wl, "harness", per=40)
-    for i, l, o in zip(widx, wl, wout):
-        ctx.case(l, nontrivial=True)
-        f = parsed[i]
-        want = "W:err" if f["H"] == "err" else "W:" + f["H"] + ("" if f["B"].split(":")[0] == "-" else f["B"].split(":")[0])
-        got = " ".join(t for t in o.split(" ") if not t.startswith(("B:", "L:"))) if o.startswith("B:") else o
-        ctx.count("wire:" + ("err" if want == "W:err" else "sent"))
+    pool = [i for i, m in enumerate(msgs) if m is not None and lines[i].startswith("m ") and m.body is not None and parsed[i] is not None
+            and int(parsed[i]["B"].split(":")[2]) <= 200]
+    okp = [i for i in pool if parsed[i]["H"] != "err"]
+    erp = [i for i in pool if parsed[i]["H"] == "err"]
+    sized = [i for i in okp if "sizes" in msgs[i].kinds]
+    groups = []
+    for i in sized:                                   # a 64 KiB .. 200 KiB message before and after an ordinary one
+        groups.append([i, r2.choice(okp)])
+        groups.append([r2.choice(okp), i])
+    shapes = ["o", "oo", "oo", "ooo", "ooo", "oeo", "oeo", "eo", "oe", "oeeo", "ooeo", "xx", "xxx"]
+    while len(groups) < (500 if thorough else 110):
+        shape = r2.choice(shapes)
+        groups.append([r2.choice(okp if c == "o" else erp if c == "e" and erp else pool) for c in shape])
+    wl = ["ww " + " ; ".join(lines[i][2:] for i in g) for g in groups]
+    wout = run_sharded(exe, wl, "harness", per=10)
+    for g, l, o in zip(groups, wl, wout):
+        ctx.case(l, nontrivial=len(g) >= 2)
+        want, got, where = ww_expected([parsed[i] for i in g]), o, ""
+        ctx.count("wire:messages-on-one-connection:%d" % len(g))
+        for i in g:
+            ctx.count("wire:" + ("err" if parsed[i]["H"] == "err" else "sent"))
         if got != want:
             ctx.disagreements_checked += 1
-            ctx.violation("the bytes a peer reads from the connection are not marshal's header followed by the body",
-                          {"line": l, "wire": got[:1500], "expected": want[:1500]})
+            ctx.violation("the bytes a peer reads from the connection are not marshal's header followed by the body, for each message in "
+                          "order (%s)" % ww_first_difference([parsed[i] for i in g], got), {"line": l, "wire": got[:3000], "expected": want[:3000]})
+
+    # ---------------- bodies of 16 MiB and more, built inside the harness from a short descriptor
+    run_big(ctx, exe, drv, thorough)
     if ctx.tier == "thorough":
         picks = [i for i, l in enumerate(lines) if l.startswith("m ") and parsed[i] is not None and len(l) < 1500][:: max(1, len(lines) // 12)][:12]
         coq_crosscheck(ctx, [(dl[i], model[i]) for i in picks], [])
@@ -913,10 +1133,13 @@ def run(ctx):
         "MessageBuilder::with_byteorder (body pushed into the built message) or field by field, about half of them with stale "
         "dynheader.serial/signature/num_fds that disagree with the body; %d standard_messages / reply constructor calls, about a quarter "
         "of the pushed string arguments containing NUL (%d of them in the class of known finding D24); %d decoded messages given a "
-        "different body and marshalled again; %d messages sent through a real connection and read at the peer end; HeaderFlags "
+        "different body and marshalled again; %d messages sent through %d real connections (1 to 4 per connection, messages that do not "
+        "marshal in between, 64 KiB..200 KiB ones before and after small ones), the whole byte stream read at the peer end; %d messages with bodies of "
+        "2^24-5 .. 128 MiB built inside the harness (around 2^24, 40 MB, 2^26, exactly at / 1 byte over the 128 MiB message limit, both byte orders); HeaderFlags "
         "exhaustively (3 x 256); a 64 MiB object path; %d messages with bodies of 64 KiB..200 KiB and/or 255..350 descriptors. A case is non-trivial when it has at least two header fields; distinct = distinct "
         "harness lines" % ("thorough" if thorough else "quick", sum(1 for l in lines if l.startswith("m ")), hg.get("type:0", 0), hg.get("kind:residues", 0),
-                           tot("kind:bad-"), tot("std:"), hg.get("known:D24", 0), tot("remarshal:"), tot("wire:"), hg.get("kind:sizes", 0)))
+                           tot("kind:bad-"), tot("std:"), hg.get("known:D24", 0), tot("remarshal:"), hg.get("wire:sent", 0) + hg.get("wire:err", 0),
+                           tot("wire:messages-on-one-connection:"), hg.get("kind:big", 0), hg.get("kind:sizes", 0)))
 
 
 def replay(ctx, body):
@@ -928,6 +1151,48 @@ def replay(ctx, body):
         print("HeaderFlags table", "matches the bit semantics" if ok else "REPRODUCED: differs from the bit semantics: " + data.get("where", ""))
         return 0 if ok else 1
     l = data["line"]
+    if l.startswith("ww "):
+        parts = l[3:].split(" ; ")
+        fs = [fields_of(run_proc(exe, ["m " + x])[1][0]) for x in parts]
+        o = run_proc(exe, [l])[1]
+        got, want = (o or ["<crash>"])[0], ww_expected(fs)
+        print("%d messages through one connection" % len(parts))
+        for x, f in zip(parts, fs):
+            print("  m", x[:200], "->", "refused" if f["H"] == "err" else "%d header + %d body bytes" % (len(f["H"]) // 2, body_len_of(f["B"].split(":")[0])))
+        print("wire    :", got[:600], "\nexpected:", want[:600])
+        print("REPRODUCED: the bytes on the wire are not header ++ body of each message in order: " + ww_first_difference(fs, got)
+              if got != want else "not reproduced")
+        return 1 if got != want else 0
+    if l.startswith("M "):
+        o = run_proc(exe, [l])[1]
+        print("line:", l[:400])
+        print("impl:", (o or ["<crash>"])[0][:1500])
+        if not o or o[0].startswith("PANIC"):
+            print("REPRODUCED: crash/panic")
+            return 1
+        f = fields_of(o[0])
+        p = l.split(" ")
+        dec = lambda h: None if h == "-" else ("" if h == "e" else bytes.fromhex(h).decode())
+        m = Msg()
+        m.kinds = []
+        m.mode, m.bo, m.typ, m.flags, m.serial = p[1], p[2], int(p[3]), int(p[4]), int(p[5])
+        m.rs = None if p[6] == "-" else int(p[6])
+        m.iface, m.dest, m.sender, m.member, m.path, m.err = [dec(x) for x in p[7:13]]
+        _, nbytes, seed, sighex, nfds = p[13].split(":")
+        mf, problem = big_model(m, drv, int(nbytes), bytes.fromhex(sighex).decode(), int(nfds))
+        if problem:
+            print("specification not available:", problem)
+            return 2
+        print("spec header :", mf["S"][:600], "\nmodel header:", mf["H"][:600])
+        if f["B"].split(":")[0] != big_token(int(nbytes), int(seed), m.bo == "B"):
+            print("not reproduced (the harness built a different body than the descriptor stands for)")
+            return 0
+        viol, corr = judge_marshal(m, f, mf)
+        if viol:
+            print("REPRODUCED:", "; ".join(viol))
+            return 1
+        print("not reproduced" + (" (model and implementation differ: %s)" % corr[0] if corr else ""))
+        return 0
     if l.startswith("w "):
         o = run_proc(exe, [l])[1]
         om = run_proc(exe, ["m " + l[2:]])[1]
